@@ -94,6 +94,7 @@ def run_property(pid, spec, tier, seed, deadline=None):
             results.append(res)
         # failures
         seen_sig = {}
+        unconfirmed = []
         for res in results:
             for f in res.get("failures", []):
                 key = (f["sig"], f["clause"])
@@ -133,7 +134,7 @@ def run_property(pid, spec, tier, seed, deadline=None):
                     pr = subprocess.run([res["_exe"]] + r.args + ["--replay=%s:%s" % (sidx, sched)], capture_output=True, text=True)
                     outs.append((pr.returncode, pr.stdout.splitlines()[0] if pr.stdout else ""))
                 if outs[0] != outs[1] or outs[0][0] != 1:
-                    raise HarnessError("replay of schedule %s did not reproduce the failure %s deterministically: %r" % (f["id"][:200], key, outs))
+                    unconfirmed.append("replay of schedule %s did not reproduce the failure %s deterministically: %r" % (f["id"][:200], key, outs)); continue
                 n = len(violations)
                 path = os.path.join(VERIF, "out", "replay", "%s-%d.json" % (pid, n))
                 json.dump(dict(property=pid, tier=tier, seed=seed, engine="icb", run=res["run"], scenario=f["id"].split("|schedule=")[0], schedule=sched, clause=f["clause"], msg=f["msg"], occurrences=v["count"],
@@ -149,7 +150,7 @@ def run_property(pid, spec, tier, seed, deadline=None):
                     pr = subprocess.run([res["_exe"]] + r.args + (["--replay=" + f["id"].split("start=", 1)[-1]] if f["id"].startswith("start=") else ["--replay-scripted=1"]), capture_output=True, text=True, env=env)
                     outs.append((pr.returncode != 0, sorted(l for l in pr.stdout.splitlines() if l.startswith("FAIL"))[:3]))
                 if outs[0] != outs[1] or not outs[0][0]:
-                    raise HarnessError("replay of path %s did not reproduce the failure %s deterministically: %r" % (f["id"], key, outs))
+                    unconfirmed.append("replay of path %s did not reproduce the failure %s deterministically: %r" % (f["id"], key, outs)); continue
                 n = len(violations)
                 path = os.path.join(VERIF, "out", "replay", "%s-%d.json" % (pid, n))
                 json.dump(dict(property=pid, tier=tier, seed=seed, engine="fsx", run=res["run"], path=f["id"], clause=f["clause"], msg=f["msg"], occurrences=v["count"],
@@ -164,7 +165,7 @@ def run_property(pid, spec, tier, seed, deadline=None):
                 rr = exec_harness(res["_exe"], r.args + ["--tier=" + tier, "--seed=%d" % seed, "--replay-index=%d" % f["index"]], r.env, ed)
                 reps.append(sorted((x["sig"], x["clause"], x["id"]) for x in rr.get("failures", [])))
             if reps[0] != reps[1] or (f["sig"], f["clause"], f["id"]) not in reps[0]:
-                raise HarnessError("replay of case %d (%s) did not reproduce the failure %s deterministically: %r" % (f["index"], f["id"], key, reps))
+                unconfirmed.append("replay of case %d (%s) did not reproduce the failure %s deterministically: %r" % (f["index"], f["id"], key, reps)); continue
             n = len(violations)
             path = os.path.join(VERIF, "out", "replay", "%s-%d.json" % (pid, n))
             json.dump(dict(property=pid, tier=tier, seed=seed, engine="bex", run=res["run"], case_index=f["index"], case_id=f["id"], sig=f["sig"], clause=f["clause"], msg=f["msg"],
@@ -172,6 +173,12 @@ def run_property(pid, spec, tier, seed, deadline=None):
             violations.append(dict(sig=f["sig"], clause=f["clause"], id=f["id"], msg=f["msg"], count=v["count"], replay=path))
             lines.append("VIOLATION property=%s replay=%s" % (pid, path))
             lines.append("  # %s | %s | %s : %s (x%d)" % (f["sig"], f["clause"], f["id"], f["msg"], v["count"]))
+        # a reported failure that does not reproduce in isolation is never turned into a VIOLATION; if nothing else is confirmed
+        # the check has no verdict (HARNESS-ERROR, exit 2); next to confirmed violations it is only mentioned
+        if unconfirmed and not violations:
+            raise HarnessError(unconfirmed[0])
+        for u in unconfirmed[:5]:
+            lines.append("UNCONFIRMED (not counted): " + u[:300])
         for xf in (spec["cross_check"](results) if spec.get("cross_check") else []):
             n = len(violations)
             path = os.path.join(VERIF, "out", "replay", "%s-%d.json" % (pid, n))
